@@ -37,16 +37,16 @@ example : sortDedup ["b", "a"] = sortDedup ["a", "b", "a"] := by decide
 /-- **Key canonicity.** The hashed key depends on the *set* of splitter names only — not on
     the order in which they were declared nor on repetitions — for every salt and every
     assignment of field values (including those where the key raises). -/
-theorem C01_key_canonical (salt : String) (xs ys : List String) (env : Env)
+theorem C01_key_canonical (pr : Nat → Bool) (salt : String) (xs ys : List String) (env : Env)
     (hset : ∀ x, x ∈ xs ↔ x ∈ ys) :
-    keyOf salt (sortDedup xs) env = keyOf salt (sortDedup ys) env :=
-  Proofs.keyOf_canonical salt xs ys env hset
+    keyOf pr salt (sortDedup xs) env = keyOf pr salt (sortDedup ys) env :=
+  Proofs.keyOf_canonical pr salt xs ys env hset
 
-example (env : Env) :
-    keyOf "s" (sortDedup ["b", "a", "b"]) env = keyOf "s" (sortDedup ["a", "b"]) env :=
-  C01_key_canonical "s" _ _ env (by intro x; simp only [List.mem_cons, List.not_mem_nil]; grind)
+example (pr : Nat → Bool) (env : Env) :
+    keyOf pr "s" (sortDedup ["b", "a", "b"]) env = keyOf pr "s" (sortDedup ["a", "b"]) env :=
+  C01_key_canonical pr "s" _ _ env (by intro x; simp only [List.mem_cons, List.not_mem_nil]; grind)
 
-example : keyOf "s" (sortDedup ["b", "a", "b"]) [("b", .int 2), ("a", .str "x")] = .ok "sx2" := by rfl
+example (pr : Nat → Bool) : keyOf pr "s" (sortDedup ["b", "a", "b"]) [("b", .int 2), ("a", .str "x")] = .ok "sx2" := by rfl
 
 /-! ### C09 — splitter order, salt -/
 
@@ -66,40 +66,40 @@ example :
 
 /-- **The key determines the salt.** For the same fields and the same arguments, equal keys
     force equal salts; i.e. two different salts always hash different keys. -/
-theorem C09_key_varies_with_salt (s1 s2 : String) (names : List String) (env : Env)
-    (k1 k2 : String) (h1 : keyOf s1 names env = .ok k1) (h2 : keyOf s2 names env = .ok k2)
+theorem C09_key_varies_with_salt (pr : Nat → Bool) (s1 s2 : String) (names : List String) (env : Env)
+    (k1 k2 : String) (h1 : keyOf pr s1 names env = .ok k1) (h2 : keyOf pr s2 names env = .ok k2)
     (hk : k1 = k2) : s1 = s2 :=
-  Proofs.keyOf_salt_injective s1 s2 names env k1 k2 h1 h2 hk
+  Proofs.keyOf_salt_injective pr s1 s2 names env k1 k2 h1 h2 hk
 
 /-- contrapositive form -/
-theorem C09_key_differs_of_salt_ne (s1 s2 : String) (names : List String) (env : Env)
-    (k1 k2 : String) (h1 : keyOf s1 names env = .ok k1) (h2 : keyOf s2 names env = .ok k2)
+theorem C09_key_differs_of_salt_ne (pr : Nat → Bool) (s1 s2 : String) (names : List String) (env : Env)
+    (k1 k2 : String) (h1 : keyOf pr s1 names env = .ok k1) (h2 : keyOf pr s2 names env = .ok k2)
     (hs : s1 ≠ s2) : k1 ≠ k2 :=
-  Proofs.keyOf_ne_of_salt_ne s1 s2 names env k1 k2 h1 h2 hs
+  Proofs.keyOf_ne_of_salt_ne pr s1 s2 names env k1 k2 h1 h2 hs
 
-example : keyOf "s1" ["a"] [("a", .int 7)] = .ok "s17" := by rfl
-example : keyOf "s2" ["a"] [("a", .int 7)] = .ok "s27" := by rfl
+example (pr : Nat → Bool) : keyOf pr "s1" ["a"] [("a", .int 7)] = .ok "s17" := by rfl
+example (pr : Nat → Bool) : keyOf pr "s2" ["a"] [("a", .int 7)] = .ok "s27" := by rfl
 example : "s17" ≠ "s27" :=
-  C09_key_differs_of_salt_ne "s1" "s2" ["a"] [("a", .int 7)] _ _ rfl rfl (by decide)
+  C09_key_differs_of_salt_ne (fun _ => true) "s1" "s2" ["a"] [("a", .int 7)] _ _ rfl rfl (by decide)
 
 /-- **One field: the key determines the printed value.** With one splitter field and the
     same salt, two values whose `str()` differ give different keys. -/
-theorem C09_key_varies_with_value (salt n : String) (env env' : Env) (v v' : PyVal) (p p' : String)
+theorem C09_key_varies_with_value (pr : Nat → Bool) (salt n : String) (env env' : Env) (v v' : PyVal) (p p' : String)
     (hget : env.get n = some v) (hget' : env'.get n = some v')
-    (hp : PyVal.pyStr v = .ok p) (hp' : PyVal.pyStr v' = .ok p') (hne : p ≠ p') :
-    keyOf salt [n] env ≠ keyOf salt [n] env' :=
-  Proofs.keyOf_single_injective salt n env env' v v' p p' hget hget' hp hp' hne
+    (hp : PyVal.pyStr pr v = .ok p) (hp' : PyVal.pyStr pr v' = .ok p') (hne : p ≠ p') :
+    keyOf pr salt [n] env ≠ keyOf pr salt [n] env' :=
+  Proofs.keyOf_single_injective pr salt n env env' v v' p p' hget hget' hp hp' hne
 
-example : keyOf "s" ["a"] [("a", .int 7)] ≠ keyOf "s" ["a"] [("a", .int 8)] :=
-  C09_key_varies_with_value "s" "a" _ _ (.int 7) (.int 8) "7" "8" rfl rfl rfl rfl (by decide)
+example (pr : Nat → Bool) : keyOf pr "s" ["a"] [("a", .int 7)] ≠ keyOf pr "s" ["a"] [("a", .int 8)] :=
+  C09_key_varies_with_value pr "s" "a" _ _ (.int 7) (.int 8) "7" "8" rfl rfl rfl rfl (by decide)
 
 /-! ### C15 — only the printed form of a value reaches the key -/
 
 /-- **Same print, same key** (general form). If every named field is bound in both
     argument sets (or in neither) to values with the same `str()` outcome, the keys are equal. -/
-theorem C15_same_print_same_key_list (salt : String) (names : List String) (env env' : Env)
-    (h : ∀ n ∈ names, (env.get n).map PyVal.pyStr = (env'.get n).map PyVal.pyStr) :
-    keyOf salt names env = keyOf salt names env' := by
+theorem C15_same_print_same_key_list (pr : Nat → Bool) (salt : String) (names : List String) (env env' : Env)
+    (h : ∀ n ∈ names, (env.get n).map (PyVal.pyStr pr) = (env'.get n).map (PyVal.pyStr pr)) :
+    keyOf pr salt names env = keyOf pr salt names env' := by
   apply Proofs.keyOf_congr
   intro n hn
   have := h n hn
@@ -109,19 +109,19 @@ theorem C15_same_print_same_key_list (salt : String) (names : List String) (env 
 /-- **Same print, same key.** One splitter field `n`: values `v`, `v'` with
     `str(v) == str(v')` give the same key (so the same bucket) — e.g. the int `1` and the
     string `'1'`. -/
-theorem C15_same_print_same_key (salt n : String) (v v' : PyVal)
-    (h : PyVal.pyStr v = PyVal.pyStr v') :
-    keyOf salt [n] [(n, v)] = keyOf salt [n] [(n, v')] :=
-  Proofs.keyOf_single_same_print salt n _ _ v v' (by simp [Env.get]) (by simp [Env.get]) h
+theorem C15_same_print_same_key (pr : Nat → Bool) (salt n : String) (v v' : PyVal)
+    (h : PyVal.pyStr pr v = PyVal.pyStr pr v') :
+    keyOf pr salt [n] [(n, v)] = keyOf pr salt [n] [(n, v')] :=
+  Proofs.keyOf_single_same_print pr salt n _ _ v v' (by simp [Env.get]) (by simp [Env.get]) h
 
-example : keyOf "s" ["id"] [("id", .int 1)] = keyOf "s" ["id"] [("id", .str "1")] :=
-  C15_same_print_same_key "s" "id" (.int 1) (.str "1") (by rfl)
+example (pr : Nat → Bool) : keyOf pr "s" ["id"] [("id", .int 1)] = keyOf pr "s" ["id"] [("id", .str "1")] :=
+  C15_same_print_same_key pr "s" "id" (.int 1) (.str "1") (by rfl)
 
 /-- the documented non-injectivity of concatenation: field values are joined without a
     separator, so different argument tuples can share a key -/
-example : keyOf "" ["a", "b"] [("a", .str "ab"), ("b", .str "c")]
-        = keyOf "" ["a", "b"] [("a", .str "a"), ("b", .str "bc")] := by rfl
+example (pr : Nat → Bool) : keyOf pr "" ["a", "b"] [("a", .str "ab"), ("b", .str "c")]
+        = keyOf pr "" ["a", "b"] [("a", .str "a"), ("b", .str "bc")] := by rfl
 
-example : PyVal.pyStr (.int 1) = PyVal.pyStr (.str "1") := by rfl
+example (pr : Nat → Bool) : PyVal.pyStr pr (.int 1) = PyVal.pyStr pr (.str "1") := by rfl
 
 end Pyab.Properties
